@@ -24,7 +24,8 @@ CFG = dict(
          "envelopes towards the third peer, mixed with live p<->q traffic; re-attachment before / after / without the failure (read, write, "
          "blocked write) of the old connection, twice; the context cancelled at EVERY step of each of these (quick: a third of the positions "
          "of the long ones); transports that ignore their context; faults and cancellation in ONE step (also cancelling from inside the "
-         "forwarding loop), repeated, judged by the predicates alone; seeded random walks with faults; free-running stress with forged sources",
+         "forwarding loop), repeated, judged by the predicates alone; a peer dialled on demand whose connection then fails (read / write / blocked write / dial error) and is dialled again, with the "
+         "context cancelled at every step; seeded random walks with faults; free-running stress with forged sources; the rig runs as 8 shard processes",
     assumptions=["payloads are opaque to the proxy (tokens)",
                  "peer transports honour their context in Read and in a blocked Write (the shutdown clause; transports that do not are exercised too and then only the model comparison applies); the newConnection callback returns",
                  "quiescence = testing/synctest's durable blocking; goroutine roles are read from runtime.Stack frames"],
